@@ -82,7 +82,7 @@ func c20XattrList(l1, l2 int) {
 }
 
 func VP_C20_xattr_entries() {
-	for l1 := 1; l1 <= 8; l1++ {
+	for l1 := 1; l1 <= vp.Bound("namelen", 4, 8); l1++ {
 		l2 := 1 + (l1*3)%8
 		c20XattrList(l1, l2)
 	}
